@@ -52,7 +52,9 @@ RULE = {
         "by a success; blocked is UNCERTAIN until the first event at or after the deadline), no two equal consecutive "
         "notifications; (b) safety on the raw trace: whenever WORKING/UNCERTAIN is emitted, and at every barrier while it stands, "
         "both latest messages are healthy and arrived no more than the maximum age ago; (c) get_working_components returns "
-        "uncertain components only when no working one is requested. Non-trivial = a silence >= max age, a faulty message between "
+        "uncertain components only when no working one is requested; (d) a quarter of the cases drive 2-3 batteries behind a "
+        "real ComponentPoolStatusTracker and compare the pool status (working / uncertain sets) and get_working_components "
+        "with one reference machine per battery after every barrier. Non-trivial = a silence >= max age, a faulty message between "
         "healthy ones and >= 2 consecutive failed results in one history; distinct by SHA-1 of the canonical JSON case."
     )
 }
@@ -61,7 +63,7 @@ ASSUMPTIONS = [
     "not generated: timestamp age and arrival silence legitimately differ there)",
     "virtual time: data timers and blocking deadlines elapse exactly",
 ]
-MIN_LABELS = {"C16": {"silence_ge_max_age": 0.1, "faulty_between_healthy": 0.07, "two_consecutive_failures": 0.15,
+MIN_LABELS = {"C16": {"pool_tracker": 0.1, "silence_ge_max_age": 0.1, "faulty_between_healthy": 0.07, "two_consecutive_failures": 0.15,
                       "uncertain_seen": 0.3}}
 
 MAX_AGE = 10.0
@@ -72,26 +74,41 @@ HEALTHY = {"ok", "warning"}
 
 def strategy(tier: str, pid: str = "C16") -> st.SearchStrategy[Any]:
     del pid
+    adv_all = st.tuples(st.just("adv"), st.sampled_from([0.1, 0.9, 1.0, 1.1, 2.0, 4.0, 9.9, 10.0, 10.1, 31.0])).map(list)
+    adv_small = st.tuples(st.just("adv"), st.sampled_from([0.1, 0.9, 1.0, 1.1, 2.0])).map(list)
     op = st.one_of(
         st.tuples(st.just("bat"), st.sampled_from(BAT_KINDS)).map(list),
         st.tuples(st.just("inv"), st.sampled_from(INV_KINDS)).map(list),
         st.tuples(st.just("res"), st.sampled_from(["failed", "failed", "failed", "succeeded", "none"])).map(list),
         st.tuples(st.just("res"), st.sampled_from(["failed", "failed", "succeeded", "none"])).map(list),
-        st.tuples(st.just("adv"), st.sampled_from([0.1, 0.9, 1.0, 1.1, 2.0, 4.0, 9.9, 10.0, 10.1, 31.0])).map(list),
-        st.tuples(st.just("adv"), st.sampled_from([0.1, 0.9, 1.0, 1.1, 2.0])).map(list),
-        st.tuples(st.just("adv"), st.sampled_from([0.1, 0.9, 1.0, 1.1, 2.0])).map(list),
+        adv_all, adv_small, adv_small,
     )
-    return st.fixed_dictionaries({
-        "ops": st.lists(op, min_size=4, max_size=30 if tier == "quick" else 80).map(
-            lambda ops: [["bat", "ok"], ["inv", "ok"]] + ops),
-        "pool": st.fixed_dictionaries({
-            "working": st.sets(st.integers(1, 5)), "uncertain": st.sets(st.integers(1, 5)),
-            "asked": st.sets(st.integers(1, 6)),
-        }).map(lambda d: {k: sorted(x) for k, x in d.items()}),
+    pool_op = st.one_of(
+        st.tuples(st.just("bat"), st.sampled_from(BAT_KINDS), st.integers(0, 2)).map(list),
+        st.tuples(st.just("inv"), st.sampled_from(INV_KINDS), st.integers(0, 2)).map(list),
+        st.tuples(st.just("res"), st.lists(st.sampled_from(["failed", "failed", "succeeded", "none"]), min_size=3, max_size=3)).map(list),
+        st.tuples(st.just("res"), st.lists(st.sampled_from(["failed", "succeeded", "none"]), min_size=3, max_size=3)).map(list),
+        adv_all, adv_small, adv_small,
+    )
+    nops = 30 if tier == "quick" else 80
+    pool_status = st.fixed_dictionaries({
+        "working": st.sets(st.integers(1, 5)), "uncertain": st.sets(st.integers(1, 5)),
+        "asked": st.sets(st.integers(1, 6)),
+    }).map(lambda d: {k: sorted(x) for k, x in d.items()})
+    single = st.fixed_dictionaries({
+        "ops": st.lists(op, min_size=4, max_size=nops).map(lambda ops: [["bat", "ok"], ["inv", "ok"]] + ops),
+        "pool": pool_status,
     })
+    pool = st.fixed_dictionaries({
+        "nbat": st.integers(2, 3),
+        "ops": st.lists(pool_op, min_size=4, max_size=nops).map(
+            lambda ops: [["bat", "ok", 0], ["inv", "ok", 0], ["bat", "ok", 1], ["inv", "ok", 1]] + ops),
+        "pool": pool_status,
+    })
+    return st.one_of(single, single, single, pool)
 
 
-def _bat_msg(kind: str, now: datetime) -> Any:
+def _bat_msg(kind: str, now: datetime, cid: int = 9) -> Any:
     kw: dict[str, Any] = {}
     if kind == "state":
         kw["component_state"] = BatteryComponentState.ERROR
@@ -104,10 +121,10 @@ def _bat_msg(kind: str, now: datetime) -> Any:
     elif kind == "nancap":
         kw["capacity"] = math.nan
     ts = now - timedelta(seconds=MAX_AGE + 0.5) if kind == "stale" else now
-    return fakes.battery_data(9, ts, **kw)
+    return fakes.battery_data(cid, ts, **kw)
 
 
-def _inv_msg(kind: str, now: datetime) -> Any:
+def _inv_msg(kind: str, now: datetime, cid: int = 8) -> Any:
     kw: dict[str, Any] = {}
     if kind == "state":
         kw["component_state"] = InverterComponentState.ERROR
@@ -116,7 +133,7 @@ def _inv_msg(kind: str, now: datetime) -> Any:
     elif kind == "warning":
         kw["errors"] = [InverterError(code=InverterErrorCode.UNSPECIFIED, level=ErrorLevel.WARN, message="generated")]
     ts = now - timedelta(seconds=MAX_AGE + 0.5) if kind == "stale" else now
-    return fakes.inverter_data(8, ts, **kw)
+    return fakes.inverter_data(cid, ts, **kw)
 
 
 class _Model:
@@ -175,9 +192,96 @@ class _Model:
         self._evaluate(now)
 
 
+def _run_pool(case: dict[str, Any], v: Verdict) -> None:
+    """2-3 batteries behind a real ComponentPoolStatusTracker: pool status vs per-battery reference machines."""
+    from frequenz.sdk.microgrid._power_distributing._component_pool_status_tracker import (  # pylint: disable=import-outside-toplevel
+        ComponentPoolStatusTracker,
+    )
+
+    nbat = case["nbat"]
+    bat_id = [9 + 10 * b for b in range(nbat)]
+    inv_id = [8 + 10 * b for b in range(nbat)]
+    models = [_Model() for _ in range(nbat)]
+    v.labels.add("pool_tracker")
+
+    async def scenario() -> None:
+        loop = asyncio.get_running_loop()
+
+        def now_us() -> int:
+            return round(loop.time() * 1e6)
+
+        comps = {fakes.grid(1)}
+        conns = set()
+        for b in range(nbat):
+            comps |= {fakes.bat_inverter(inv_id[b]), fakes.battery(bat_id[b])}
+            conns |= {Connection(1, inv_id[b]), Connection(inv_id[b], bat_id[b])}
+        api = fakes.FakeApi(comps, conns)
+        with fakes.connection(fakes.build_graph(comps, conns), api):
+            status_chan: Any = Broadcast(name="pool-status")
+            status_rx = status_chan.new_receiver(limit=100000)
+            tracker = ComponentPoolStatusTracker(
+                component_ids=set(bat_id), component_status_sender=status_chan.new_sender(),
+                max_data_age=timedelta(seconds=MAX_AGE), max_blocking_duration=timedelta(seconds=30.0),
+                component_status_tracker_type=BatteryStatusTracker)
+            await world.settle(3)
+            latest: Any = None
+            for step, op in enumerate(case["ops"]):
+                where = f"step {step} {op}"
+                t = now_us()
+                if op[0] == "bat":
+                    b = op[2] % nbat
+                    await api.send(bat_id[b], _bat_msg(op[1], world.now(), bat_id[b]))
+                    models[b].message("bat", op[1] in HEALTHY, t)
+                elif op[0] == "inv":
+                    b = op[2] % nbat
+                    await api.send(inv_id[b], _inv_msg(op[1], world.now(), inv_id[b]))
+                    models[b].message("inv", op[1] in HEALTHY, t)
+                elif op[0] == "res":
+                    succeeded = {bat_id[b] for b in range(nbat) if op[1][b] == "succeeded"}
+                    failed = {bat_id[b] for b in range(nbat) if op[1][b] == "failed"}
+                    await tracker.update_status(succeeded, failed)
+                    for b in range(nbat):
+                        models[b].result(op[1][b], t)
+                else:
+                    await asyncio.sleep(op[1])
+                await world.settle(2)
+                for m in models:
+                    m.silence(now_us())
+                while True:
+                    try:
+                        latest = await asyncio.wait_for(status_rx.receive(), timeout=1e-6)
+                    except asyncio.TimeoutError:
+                        break
+                want_working = {bat_id[b] for b in range(nbat) if models[b].status == "WORKING"}
+                want_uncertain = {bat_id[b] for b in range(nbat) if models[b].status == "UNCERTAIN"}
+                got_working = set() if latest is None else set(latest.working)
+                got_uncertain = set() if latest is None else set(latest.uncertain)
+                if (got_working, got_uncertain) != (want_working, want_uncertain):
+                    v.fail(f"{where}: pool status working={sorted(got_working)} uncertain={sorted(got_uncertain)}, the reference "
+                           f"machines say working={sorted(want_working)} uncertain={sorted(want_uncertain)}")
+                    break
+                usable = tracker.get_working_components(set(bat_id))
+                if set(usable) != (want_working or want_uncertain):
+                    v.fail(f"{where}: get_working_components = {sorted(usable)}, expected {sorted(want_working or want_uncertain)}")
+                    break
+                if want_uncertain and want_working:
+                    v.labels.add("pool_mixed_working_and_uncertain")
+            await tracker.stop()
+
+    world.run(scenario)
+    if any("UNCERTAIN" in m.out for m in models):
+        v.labels.add("uncertain_seen")
+    if any(m.doubled for m in models):
+        v.labels.add("blocking_doubled")
+    v.nontrivial = any("UNCERTAIN" in m.out for m in models) and any("NOT_WORKING" in m.out for m in models)
+
+
 def run_case(case: Any, pid: str) -> Verdict:
     del pid
     v = Verdict()
+    if "nbat" in case:
+        _run_pool(case, v)
+        return v
     # (c) pure function
     pool = case["pool"]
     got = ComponentPoolStatus(set(pool["working"]), set(pool["uncertain"])).get_working_components(set(pool["asked"]))
